@@ -2111,7 +2111,7 @@ class SquareLowRankUpdateMatrix(InvertibleMatrix, ImplicitArrayMatrix):
             capacitance_matrix: Square matrix equal to.
 
                     inner_square_matrix.inv
-                    + right_factor_matrix @ square_matrix.inv @ left_factor_matrix
+                    + sign * right_factor_matrix @ square_matrix.inv @ left_factor_matrix
 
                 and with shape `(dim_inner, dim_inner)` which is used in constructing
                 inverse and computation of determinant of the low-rank updated matrix,
@@ -2317,7 +2317,7 @@ class SymmetricLowRankUpdateMatrix(
             capacitance_matrix: Symmetric matrix  equal to.
 
                     inner_symmetric_matrix.inv
-                    + factor_matrix.T @  symmetric_matrix.inv @ factor_matrix
+                    + sign * factor_matrix.T @  symmetric_matrix.inv @ factor_matrix
 
                 and with shape `(dim_inner, dim_inner)` which is used in constructing
                 inverse and computation of determinant of the low-rank updated matrix,
@@ -2455,7 +2455,7 @@ class PositiveDefiniteLowRankUpdateMatrix(
             capacitance_matrix: Positive-definite matrix equal to.
 
                     inner_pos_def_matrix.inv
-                    + factor_matrix.T @ pos_def_matrix.inv @ factor_matrix
+                    + sign * factor_matrix.T @ pos_def_matrix.inv @ factor_matrix
 
                 and with shape `(dim_inner, dim_inner)` which is used in constructing
                 inverse and computation of determinant of the low-rank updated matrix,
